@@ -148,6 +148,13 @@ TTick ==
 
 TInit == /\ l = 1 /\ now = 0 /\ rs = << >> /\ ref = << >> /\ conc = 0 /\ open = << >>
          /\ load = NoSample /\ cpu = NoSample /\ g = [tr |-> 0] /\ failed = FALSE
-TNext == TNew \/ TLoad \/ TCpu \/ TRules \/ TEnter \/ TExit \/ TTrace \/ TLate \/ TTick
+\* emitted by the driver only when, after EVERY entry of the trace has been exited, the library's inbound in-flight count is not
+\* back to zero (the count is the subject of the concurrency rule and of BBR): never acceptable
+TEnd ==
+    /\ IsEvent("end")
+    /\ Judge(Ev.gauge = 0, [gauge |-> 0, why |-> "inbound in-flight count after every entry was exited"])
+    /\ UNCHANGED <<now, rs, ref, conc, open, load, cpu, g>>
+
+TNext == TNew \/ TLoad \/ TCpu \/ TRules \/ TEnter \/ TExit \/ TTrace \/ TLate \/ TTick \/ TEnd
 TSpec == TInit /\ [][TNext]_tvars
 =============================================================================
